@@ -471,6 +471,138 @@ Proof.
   intros HG HL f m ts. destruct (stack_bound_all HG HL f) as (Hb & _). apply Hb. lia.
 Qed.
 
+(* ------------------------------------------------------------------ fuel monotonicity / determinism *)
+Ltac mono_auto IHb IHp IHl IHq IHi Hle :=
+  repeat match goal with
+  | H : Fuel = ?r, Hn : ?r <> Fuel |- _ => exfalso; apply Hn; symmetry; exact H
+  | H : LFuel = ?r, Hn : ?r <> LFuel |- _ => exfalso; apply Hn; symmetry; exact H
+  | H : of_lres LFuel = ?r, Hn : ?r <> Fuel |- _ => exfalso; apply Hn; symmetry; exact H
+  | H : to_lres Fuel = ?r, Hn : ?r <> LFuel |- _ => exfalso; apply Hn; symmetry; exact H
+  | H : ?x = ?r |- ?x = ?r => exact H
+  | H : loop _ _ _ _ _ = ?r, Hn : ?r <> Fuel |- loop _ _ _ _ _ = ?r => exact (IHl _ _ _ _ _ _ Hle H Hn)
+  | H : postfix _ _ _ _ = ?r, Hn : ?r <> Fuel |- postfix _ _ _ _ = ?r => exact (IHq _ _ _ _ _ Hle H Hn)
+  | H : parse_bp _ _ _ _ = ?r, Hn : ?r <> Fuel |- parse_bp _ _ _ _ = ?r => exact (IHb _ _ _ _ _ Hle H Hn)
+  | H : prefix _ _ _ = ?r, Hn : ?r <> Fuel |- prefix _ _ _ = ?r => exact (IHp _ _ _ _ Hle H Hn)
+  | H : items _ _ _ = ?r, Hn : ?r <> LFuel |- items _ _ _ = ?r => exact (IHi _ _ _ _ Hle H Hn)
+  | H : context [match ?x with _ => _ end] |- _ =>
+      lazymatch type of x with
+      | res =>
+          let E := fresh "E" in
+          destruct x eqn:E;
+          try (first [ rewrite (IHb _ _ _ _ _ Hle E) by discriminate
+                     | rewrite (IHq _ _ _ _ _ Hle E) by discriminate
+                     | rewrite (IHp _ _ _ _ Hle E) by discriminate
+                     | rewrite (IHl _ _ _ _ _ _ Hle E) by discriminate ])
+      | lres =>
+          let E := fresh "E" in
+          destruct x eqn:E; try (rewrite (IHi _ _ _ _ Hle E) by discriminate)
+      | _ => destruct x
+      end
+  | H : context [if ?c then _ else _] |- _ => destruct c
+  end.
+
+Lemma mono_all : forall f,
+  (forall f' d m ts r, (f <= f')%nat -> parse_bp f d m ts = r -> r <> Fuel -> parse_bp f' d m ts = r) /\
+  (forall f' d ts r, (f <= f')%nat -> prefix f d ts = r -> r <> Fuel -> prefix f' d ts = r) /\
+  (forall f' d m a ts r, (f <= f')%nat -> loop f d m a ts = r -> r <> Fuel -> loop f' d m a ts = r) /\
+  (forall f' d a ts r, (f <= f')%nat -> postfix f d a ts = r -> r <> Fuel -> postfix f' d a ts = r) /\
+  (forall f' d ts r, (f <= f')%nat -> items f d ts = r -> r <> LFuel -> items f' d ts = r).
+Proof.
+  induction f as [|f (IHb & IHp & IHl & IHq & IHi)].
+  - repeat split; intros; cbn in *; subst; congruence.
+  - repeat split.
+    + intros f' d m ts r Hf H Hn. destruct f' as [|f']; [lia|]. assert (Hle : (f <= f')%nat) by lia.
+      rewrite parse_bp_S in *. mono_auto IHb IHp IHl IHq IHi Hle.
+    + intros f' d ts r Hf H Hn. destruct f' as [|f']; [lia|]. assert (Hle : (f <= f')%nat) by lia.
+      rewrite prefix_S in *. mono_auto IHb IHp IHl IHq IHi Hle.
+    + intros f' d m a ts r Hf H Hn. destruct f' as [|f']; [lia|]. assert (Hle : (f <= f')%nat) by lia.
+      rewrite loop_S in *. mono_auto IHb IHp IHl IHq IHi Hle.
+    + intros f' d a ts r Hf H Hn. destruct f' as [|f']; [lia|]. assert (Hle : (f <= f')%nat) by lia.
+      rewrite postfix_S in *. mono_auto IHb IHp IHl IHq IHi Hle.
+    + intros f' d ts r Hf H Hn. destruct f' as [|f']; [lia|]. assert (Hle : (f <= f')%nat) by lia.
+      rewrite items_S in *. mono_auto IHb IHp IHl IHq IHi Hle.
+Qed.
+
+(* the result does not depend on the fuel once there is enough of it: the parse of a token list
+   is a function of the token list *)
+Theorem parse_deterministic f1 f2 d m ts r1 r2 :
+  parse_bp f1 d m ts = r1 -> parse_bp f2 d m ts = r2 -> r1 <> Fuel -> r2 <> Fuel -> r1 = r2.
+Proof.
+  intros H1 H2 N1 N2.
+  destruct (mono_all f1) as (M1 & _). destruct (mono_all f2) as (M2 & _).
+  rewrite <- (M1 (Nat.max f1 f2) d m ts r1 (Nat.le_max_l _ _) H1 N1).
+  apply (M2 (Nat.max f1 f2) d m ts r2 (Nat.le_max_r _ _) H2 N2).
+Qed.
+
+(* ------------------------------------------------------------------ positions stay inside the input *)
+(* The unconsumed rest of a successful parse and the token an error points to are never longer than
+   the input: the reported position (tokens consumed = |input| - |rest|) lies within the input. *)
+Definition res_len (r : res) : nat := match r with Ok _ x | Err _ x => length x | _ => O end.
+Definition lres_len (r : lres) : nat := match r with LOk _ x | LErr _ x => length x | _ => O end.
+
+Ltac pos_auto IHb IHp IHl IHq IHi :=
+  repeat match goal with
+  | |- context [match (match ?y with _ => _ end) with _ => _ end] =>
+      lazymatch type of y with
+      | list tok => destruct y
+      | tok => destruct y
+      end
+  | |- context [match ?x with _ => _ end] =>
+      lazymatch type of x with
+      | res =>
+          lazymatch x with
+          | parse_bp _ ?d ?m ?r => pose proof (IHb d m r)
+          | postfix _ ?d ?a ?r => pose proof (IHq d a r)
+          | prefix _ ?d ?r => pose proof (IHp d r)
+          | loop _ ?d ?m ?a ?r => pose proof (IHl d m a r)
+          end; destruct x
+      | lres =>
+          lazymatch x with
+          | items _ ?d ?r => pose proof (IHi d r)
+          end; destruct x
+      | _ => destruct x
+      end
+  | |- context [if ?c then _ else _] => destruct c
+  end;
+  try match goal with
+  | |- (res_len (loop _ ?d ?m ?a ?r) <= _)%nat => pose proof (IHl d m a r)
+  | |- (res_len (postfix _ ?d ?a ?r) <= _)%nat => pose proof (IHq d a r)
+  | |- (res_len (parse_bp _ ?d ?m ?r) <= _)%nat => pose proof (IHb d m r)
+  end;
+  cbn [res_len lres_len length unexpected of_lres to_lres] in *; try lia.
+
+Lemma post_split_len ts : (length (snd (post_split ts)) <= length ts)%nat.
+Proof.
+  destruct ts as [|t r]; cbn; [lia|]. destruct t; cbn; try lia.
+  destruct r as [|t2 r2]; cbn; [lia|]. destruct t2; cbn; lia.
+Qed.
+
+Lemma pos_all : forall f,
+  (forall d m ts, (res_len (parse_bp f d m ts) <= length ts)%nat) /\
+  (forall d ts, (res_len (prefix f d ts) <= length ts)%nat) /\
+  (forall d m a ts, (res_len (loop f d m a ts) <= length ts)%nat) /\
+  (forall d a ts, (res_len (postfix f d a ts) <= length ts)%nat) /\
+  (forall d ts, (lres_len (items f d ts) <= length ts)%nat).
+Proof.
+  induction f as [|f (IHb & IHp & IHl & IHq & IHi)].
+  - repeat split; intros; cbn; lia.
+  - repeat split.
+    + intros d m ts. rewrite parse_bp_S. pos_auto IHb IHp IHl IHq IHi.
+    + intros d ts. rewrite prefix_S. pos_auto IHb IHp IHl IHq IHi.
+    + intros d m a ts. rewrite loop_S. pos_auto IHb IHp IHl IHq IHi.
+    + intros d a ts. rewrite postfix_S. pose proof (post_split_len ts) as Hps.
+      destruct (post_split ts) as [neg ts0]. cbn [snd] in Hps. pos_auto IHb IHp IHl IHq IHi.
+    + intros d ts. rewrite items_S. pos_auto IHb IHp IHl IHq IHi.
+Qed.
+
+Theorem position_within_input f d m ts e_or_k rest :
+  parse_bp f d m ts = Ok e_or_k rest \/ (exists k, parse_bp f d m ts = Err k rest) ->
+  (length rest <= length ts)%nat.
+Proof.
+  destruct (pos_all f) as (Hb & _). specialize (Hb d m ts).
+  intros [H|[k H]]; rewrite H in Hb; exact Hb.
+Qed.
+
 (* ------------------------------------------------------------------ the round-trip invariant *)
 Variable nops : N.
 Hypothesis WF : forall o, o < nops -> lbp o < rbp o /\ rbp o <= pbp.
